@@ -438,3 +438,53 @@ func init() {
 		fmt.Println("REPLAY: not-reproduced")
 	}
 }
+
+func replayConfig() map[string]string {
+	return map[string]string{
+		"appender.console.type":       "Console",
+		"logger.root.type":            "Logger",
+		"logger.root.appenderRef.ref": "console",
+		"logger.l1.type":              "Logger",
+		"logger.l1.tags":              "_replay_*",
+		"logger.l1.appenderRef.ref":   "console",
+		// handles registered by the repository's own test files must be configured too
+		"logger.myLogger.type":            "Logger",
+		"logger.myLogger.tags":            "_replayx_*",
+		"logger.myLogger.appenderRef.ref": "console",
+	}
+}
+
+func init() {
+	replayers["Destroy"] = func(in map[string]any) {
+		var out bytes.Buffer
+		save := Stdout
+		Stdout = &out
+		defer func() { Stdout = save }()
+		Destroy() // idle call must be harmless
+		tag := RegisterTag("_replay_destroy")
+		h := GetLogger("l1")
+		if err := Refresh(replayConfig()); err != nil {
+			fmt.Println("REPLAY: not-reproduced (Refresh failed:", err, ")")
+			return
+		}
+		if tag.logger == nil || h.logger == nil {
+			fmt.Println("REPLAY: not-reproduced (Refresh did not bind)")
+			Destroy()
+			return
+		}
+		Destroy()
+		if tag.logger != nil {
+			fmt.Printf("REPLAY: confirmed after Destroy tag %q is still bound to the stopped logger %T\n", tag.tag, tag.logger)
+			return
+		}
+		if h.logger != nil {
+			fmt.Printf("REPLAY: confirmed after Destroy handle %q is still bound to the stopped logger %T\n", h.name, h.logger)
+			return
+		}
+		if global.init || len(global.loggers) != 0 || len(global.appenders) != 0 {
+			fmt.Println("REPLAY: confirmed Destroy left global state behind")
+			return
+		}
+		fmt.Println("REPLAY: not-reproduced")
+	}
+}
